@@ -278,9 +278,13 @@ def rule_nonrtc(ctx: Ctx):
             if lp.rtc is not False:
                 continue
             n_branches += 1
-            kinds = [s.kind for s in lp.syms if s.kind not in ("RTC?",)]
+            kinds = [s.kind for s in lp.syms if s.kind not in ("RTC?", "QTEST")]
+            if kinds == ["RET"] and lp.syms[-1].info["value"] == "None" and any(s.kind == "QTEST" and s.info["taken"] is False for s in lp.syms):
+                rep.ok("C03.nonrtc", fn.loc(), f"{eng.name}: with rtc=False and nothing queued the loop returns None")
+                continue
             ok = kinds[:2] == ["POP", "TRIG"] and kinds[-1] == "RET" and not any(x in kinds for x in ("ACQ", "REL", "ACQ?"))
-            pop, trig = (lp.syms[1], lp.syms[2]) if ok else (None, None)
+            core = [s for s in lp.syms if s.kind in ("POP", "TRIG")]
+            pop, trig = (core[0], core[1]) if ok else (None, None)
             ok = ok and pop.info["op"] == "popleft" and trig.info["arg"] == pop.info["id"] and lp.syms[-1].info["value"] == trig.info["id"]
             rep.check(ok, "C03.nonrtc", fn.loc(), f"{eng.name}: with rtc=False the event is taken and run at once, returning its own result",
                       fn.key, "non-RTC path: " + " ".join(lp.names()))
@@ -302,6 +306,27 @@ def rule_nonrtc(ctx: Ctx):
         v = expand(p.value, p.events) if p.kind == "return" else None
         ok = isinstance(v, ast.Call) and any(kw.arg == "rtc" and show(kw.value) == "rtc" for kw in v.keywords)
         rep.check(ok, "C03.nonrtc", ge.loc(), "the engine is built with the machine's rtc option", ge.key, f"return {show(v)}")
+
+
+def rule_guarded_pop(ctx: Ctx, rule: str = "C03.nonrtc"):
+    """Every consumer operation is preceded, on its path, by an observation that the queue is non-empty
+    since the previous pop (so activating with nothing queued is a no-op in both processing modes)."""
+    rep, k = ctx.rep, ctx.k
+    for eng in k.engines:
+        fn, lps = loop_paths(ctx, eng, exc_edges="none")
+        n = 0
+        for lp in lps:
+            nonempty_seen = False
+            for s in lp.syms:
+                if s.kind == "QTEST":
+                    nonempty_seen = bool(s.info["taken"])
+                elif s.kind == "POP":
+                    n += 1
+                    rep.check(nonempty_seen, rule, s.ev.loc(),
+                              f"{eng.name}: an event is taken from the queue only after the queue was seen non-empty "
+                              f"({'immediate' if lp.rtc is False else 'run-to-completion'} mode)", fn.key, norm_stmt(s.ev.node), path=lp.names()[:12])
+                    nonempty_seen = False
+        rep.floor(rule, f"pop sites on paths of {eng.name}.processing_loop", n, 2)
 
 
 def rule_depth(ctx: Ctx):
@@ -330,4 +355,4 @@ def rule_depth(ctx: Ctx):
     rep.floor("C03.depth", "callback slot sites on the event path", n_slots, 4)
 
 
-RULES = [rule_put, rule_fifo, rule_elect, rule_rtc, rule_first, rule_nonrtc, rule_depth]
+RULES = [rule_put, rule_fifo, rule_elect, rule_rtc, rule_first, rule_nonrtc, rule_guarded_pop, rule_depth]
